@@ -420,7 +420,7 @@ func (R *Repository) updateCrlEntry(entry *Entry, newChains *core.CertificateCha
 	verifhook.Hit("repo.refresh.swapping", R, entry)
 	err = R.updateEntry(entry, err, store)
 	if err != nil {
-		R.deleteEntrySync(identifier)
+		//the entry stays in the repository: dropping it would silently take this crl out of force
 		return err
 	}
 	verifhook.Hit("repo.refresh.swapped", R, entry)
@@ -464,9 +464,10 @@ func (R *Repository) updateEntry(entry *Entry, err error, store crlstore.CRLStor
 	defer verifhook.Hit("repo.swap.unlocking", R, entry)
 	err = entry.CRLStore.Update(store)
 	if err != nil {
+		//the swap failed half way, so the store can not be trusted anymore. It is closed but kept:
+		//lookups in this crl report an error (and the connection is denied),
+		//instead of treating certificates listed by it as not revoked
 		entry.CRLStore.Close()
-		//mark as empty in case someone already acquired the entry and waits for a lock
-		entry.CRLStore = nil
 	}
 	return err
 }
